@@ -423,6 +423,25 @@ def tds_worker(job):
             import io
             with contextlib.redirect_stdout(io.StringIO()):
                 ss.TDS.run()
+                if job.get('custom'):
+                    # a topology change made between two runs and signalled through TDS.custom_event (what a
+                    # perturbation file or an EventFlag does): all lines between one pair of buses are opened,
+                    # chosen so that no bus loses its last line
+                    pairs = {}
+                    for k, (a, b, u) in enumerate(edges_now(ss)):
+                        if u:
+                            pairs.setdefault((min(a, b), max(a, b)), []).append(k)
+                    deg = {}
+                    for (a, b), ks in pairs.items():
+                        deg[a] = deg.get(a, 0) + 1
+                        deg[b] = deg.get(b, 0) + 1
+                    cand = sorted(p for p in pairs if deg[p[0]] > 1 and deg[p[1]] > 1)
+                    pick = cand[job['custom'] % len(cand)]
+                    for k in pairs[pick]:
+                        ss.Line.alter('u', ss.Line.idx.v[k], 0)
+                    ss.TDS.custom_event = True
+                    ss.TDS.config.tf = job['tf'] + 0.3
+                    ss.TDS.run()
         except Exception as e:      # noqa
             return job, {'n': int(ss.Bus.n), 'calls': calls, 'exc': err_kind(e), 'line_u': [int(x) for x in ss.Line.u.v]}
         return job, {'n': int(ss.Bus.n), 'calls': calls, 'line_u': [int(x) for x in ss.Line.u.v], 'end': conn_obs(ss),
@@ -438,6 +457,8 @@ def check_tds(ctx, njobs):
         k = ctx.rng.choice([1, 2, 3])
         lines = ctx.rng.sample(range(15), k)
         jobs.append({'toggles': [[li, round(0.1 * (i + 1), 3)] for i, li in enumerate(lines)], 'tf': round(0.1 * k + 0.05, 3)})
+    for _ in range(max(2, njobs // 3)):
+        jobs.append({'toggles': [], 'tf': 0.2, 'custom': ctx.rng.randrange(1, 1000)})
     with mp.get_context('fork').Pool(min(4, len(jobs))) as pool:
         res = pool.map(tds_worker, jobs, chunksize=1)
     lines, exp = [], []
